@@ -24,6 +24,8 @@ pub enum V {
     Builtin(String, Vec<V>),
     Bin(Box<V>, char, Box<V>),
     List(Vec<V>),
+    /// map literal `(k1: v, k2: w)` read through map-get
+    MapGet(Vec<(String, V)>, usize),
     /// set by the hoisting rewrite: a fresh variable
     Fresh(usize),
 }
@@ -102,6 +104,7 @@ fn value(globals: usize, funs: usize, locals: Vec<usize>, depth: u32) -> BoxedSt
     let mut opts: Vec<(u32, BoxedStrategy<V>)> = vec![
         (5, l),
         (2, proptest::collection::vec(sub(), 2..4).prop_map(V::List).boxed()),
+        (2, (proptest::collection::vec(sub(), 1..4), any::<usize>()).prop_map(|(vs, k)| V::MapGet(vs.into_iter().enumerate().map(|(i, v)| (format!("k{i}"), v)).collect(), k)).boxed()),
         (1, (sub(), sub()).prop_map(|(a, b)| V::Builtin("if".into(), vec![V::Ident("true".into()), a, b])).boxed()),
         (1, proptest::collection::vec(sub(), 1..3).prop_map(|v| V::Builtin("length".into(), vec![V::List(v)])).boxed()),
         (1, (sub(), sub()).prop_map(|(a, b)| V::Builtin("join".into(), vec![a, b])).boxed()),
@@ -300,6 +303,24 @@ fn rv(v: &V, n: &Names, out: &mut String) {
             }
             out.push(')');
         }
+        V::MapGet(pairs, k) => {
+            out.push_str("map-get((");
+            for (i, (key, a)) in pairs.iter().enumerate() {
+                if i > 0 {
+                    out.push(',');
+                    out.push_str(&n.gap(" "));
+                }
+                out.push_str(key);
+                // white space is allowed on both sides of the colon
+                out.push_str(&n.gap(""));
+                out.push(':');
+                out.push_str(&n.gap(" "));
+                rv(a, n, out);
+            }
+            out.push_str("),");
+            out.push_str(&n.gap(" "));
+            out.push_str(&format!("k{})", k % pairs.len()));
+        }
     }
 }
 
@@ -472,6 +493,7 @@ fn has_slash(v: &V) -> bool {
     match v {
         V::Str(s) | V::Ident(s) => s.contains('/'),
         V::Call(_, a) | V::Builtin(_, a) | V::List(a) => a.iter().any(has_slash),
+        V::MapGet(p, _) => p.iter().any(|(_, v)| has_slash(v)),
         V::Bin(a, _, b) => has_slash(a) || has_slash(b),
         _ => false,
     }
